@@ -90,7 +90,7 @@ def diff(ctx, shape, axis, scheme='backward', keepaxis=False, n=1, lkinds=None, 
             return ctx.done(r[1] == 'TypeError', r[1])
     if r[0] != 'ok':
         if keepaxis and m <= n:
-            ctx.region('C09.diff-keepaxis-short-axis', True)
+            pass
         return ctx.done(False, r[1])
     # values: n-th difference along pos
     cur = {}
